@@ -1,8 +1,24 @@
 package main
 
+// Counterexample replay: for safety obligations (bounds / nil / arith / no-panic / assert-type) of functions whose inputs can be
+// rebuilt from a solver model (byte slices, integers, booleans, small byte arrays, SlabID; every other parameter is passed as its
+// zero value), a Go test is generated that calls the REAL function with the model's input through `go test -overlay`, and the
+// violation is confirmed when the call panics. Functional (post-condition) obligations are not replayed: they are reported with
+// no-failing-input-found and the solver output.
+
 import (
+	"bytes"
+	"context"
+	"encoding/json"
 	"fmt"
+	"go/types"
 	"os"
+	"os/exec"
+	"path/filepath"
+	"regexp"
+	"strconv"
+	"strings"
+	"time"
 )
 
 type replayTest struct {
@@ -12,9 +28,308 @@ type replayTest struct {
 	Confirmed bool
 }
 
+func replayableKind(k string) bool {
+	switch k {
+	case "bounds", "nil", "no-panic", "assert-type", "div0":
+		return true
+	}
+	return false
+}
+
+type paramPlan struct {
+	name  string
+	goTy  string
+	kind  string // bytes | int | bool | small | slabid | zero
+	width int64
+}
+
+func planParams(eng *Engine, fi *FuncInfo) ([]paramPlan, bool) {
+	var out []paramPlan
+	sig := fi.Sig
+	if sig.Recv() != nil {
+		return nil, false
+	}
+	q := func(p *types.Package) string { return "" }
+	for i := 0; i < sig.Params().Len(); i++ {
+		p := sig.Params().At(i)
+		t := p.Type()
+		pp := paramPlan{name: p.Name(), goTy: types.TypeString(t, q)}
+		switch u := t.Underlying().(type) {
+		case *types.Slice:
+			if b, ok := u.Elem().Underlying().(*types.Basic); ok && b.Kind() == types.Uint8 {
+				pp.kind = "bytes"
+			} else {
+				pp.kind = "zero"
+			}
+		case *types.Basic:
+			switch {
+			case u.Info()&types.IsInteger != 0:
+				pp.kind = "int"
+			case u.Info()&types.IsBoolean != 0:
+				pp.kind = "bool"
+			default:
+				pp.kind = "zero"
+			}
+		case *types.Array:
+			if isByteArraySmall(u) {
+				pp.kind = "small"
+				pp.width = u.Len()
+			} else {
+				pp.kind = "zero"
+			}
+		case *types.Struct:
+			if pp.goTy == "SlabID" {
+				pp.kind = "slabid"
+			} else {
+				pp.kind = "zero"
+			}
+		default:
+			pp.kind = "zero"
+		}
+		if strings.Contains(pp.goTy, "cbor.") {
+			pp.goTy = strings.ReplaceAll(pp.goTy, "github.com/fxamacker/cbor/v2.", "cbor.")
+		}
+		out = append(out, pp)
+	}
+	return out, true
+}
+
+var reVal = regexp.MustCompile(`\(\s*([^()\s][^\s]*|\([^()]*(?:\([^()]*\)[^()]*)*\))\s+(\(- \d+\)|-?\d+|true|false)\s*\)`)
+
+func getValues(query string, terms []string, dir string) (map[string]string, string) {
+	file := filepath.Join(dir, "replay_getvalue.smt2")
+	body := "(set-option :produce-models true)\n" + query + "(check-sat)\n(get-value (" + strings.Join(terms, " ") + "))\n"
+	os.WriteFile(file, []byte(body), 0o644)
+	ctx, cancel := context.WithTimeout(context.Background(), 30*time.Second)
+	defer cancel()
+	cmd := exec.CommandContext(ctx, "z3-new", "-T:20", file)
+	var out bytes.Buffer
+	cmd.Stdout = &out
+	cmd.Stderr = &out
+	cmd.Run()
+	txt := out.String()
+	if !strings.HasPrefix(strings.TrimSpace(txt), "sat") {
+		return nil, txt
+	}
+	vals := map[string]string{}
+	// z3 prints ((term value) (term value) ...); match pairwise against the requested terms in order
+	rest := txt[strings.Index(txt, "sat")+3:]
+	for _, t := range terms {
+		i := strings.Index(rest, t)
+		if i < 0 {
+			continue
+		}
+		after := strings.TrimSpace(rest[i+len(t):])
+		// value ends at the closing paren of the pair
+		v := after
+		if strings.HasPrefix(v, "(- ") {
+			j := strings.Index(v, ")")
+			v = "-" + strings.TrimSpace(v[3:j])
+		} else {
+			j := strings.IndexAny(v, ") \n")
+			if j >= 0 {
+				v = v[:j]
+			}
+		}
+		vals[t] = v
+		rest = rest[i+len(t):]
+	}
+	return vals, txt
+}
+
 // tryReplay turns a solver model into a Go test against the real code where a builder exists for the function.
 func tryReplay(eng *Engine, cs *clauseStatus, o *Obligation) (*replayTest, bool) {
-	return nil, false
+	if !replayableKind(o.Kind) || o.Query == "" {
+		return nil, false
+	}
+	base := cs.Func
+	if i := strings.Index(base, "@"); i >= 0 {
+		base = base[:i]
+	}
+	fi := eng.funcs[base]
+	if fi == nil || fi.Obj == nil {
+		return nil, false
+	}
+	plan, ok := planParams(eng, fi)
+	if !ok {
+		return nil, false
+	}
+	dir := mkScratch()
+	defer os.RemoveAll(dir)
+	var terms []string
+	for _, p := range plan {
+		n := "p_" + sanitize(p.name)
+		switch p.kind {
+		case "bytes":
+			terms = append(terms, fmt.Sprintf("(len_Sl_Int %s)", n))
+		case "int", "small":
+			terms = append(terms, n)
+		case "bool":
+			terms = append(terms, n)
+		case "slabid":
+			terms = append(terms, fmt.Sprintf("(S_SlabID__address %s)", n), fmt.Sprintf("(S_SlabID__index %s)", n))
+		}
+	}
+	// only terms whose constant is declared in the query can be evaluated
+	var usable []string
+	for _, t := range terms {
+		name := t
+		if strings.HasPrefix(t, "(") {
+			f := strings.Fields(strings.Trim(t, "()"))
+			name = f[len(f)-1]
+		}
+		if strings.Contains(o.Query, "(declare-const "+name+" ") {
+			usable = append(usable, t)
+		}
+	}
+	vals := map[string]string{}
+	if len(usable) > 0 {
+		var raw string
+		vals, raw = getValues(o.Query, usable, dir)
+		if vals == nil {
+			return &replayTest{Result: "model not available: " + firstLine(raw)}, true
+		}
+	}
+	// byte contents
+	input := map[string]any{}
+	var args []string
+	var setup []string
+	for _, p := range plan {
+		n := "p_" + sanitize(p.name)
+		switch p.kind {
+		case "bytes":
+			ln := 0
+			if v, ok := vals[fmt.Sprintf("(len_Sl_Int %s)", n)]; ok {
+				ln, _ = strconv.Atoi(v)
+			}
+			if ln > 4096 {
+				ln = 4096
+			}
+			var bts []string
+			if ln > 0 {
+				var bt []string
+				for k := 0; k < ln && k < 512; k++ {
+					bt = append(bt, fmt.Sprintf("(select (arr_Sl_Int %s) %d)", n, k))
+				}
+				bv, _ := getValues(o.Query, bt, dir)
+				for k := 0; k < ln; k++ {
+					b := 0
+					if k < len(bt) && bv != nil {
+						b, _ = strconv.Atoi(bv[bt[k]])
+					}
+					bts = append(bts, strconv.Itoa(((b%256)+256)%256))
+				}
+			}
+			setup = append(setup, fmt.Sprintf("\t%s := []byte{%s}", safeName(p.name), strings.Join(bts, ", ")))
+			args = append(args, safeName(p.name))
+			input[p.name] = map[string]any{"len": ln, "bytes": bts}
+		case "int":
+			v := vals[n]
+			if v == "" {
+				v = "0"
+			}
+			args = append(args, fmt.Sprintf("%s(%s)", p.goTy, v))
+			input[p.name] = v
+		case "bool":
+			v := vals[n]
+			if v == "" {
+				v = "false"
+			}
+			args = append(args, v)
+			input[p.name] = v
+		case "small":
+			v := vals[n]
+			if v == "" {
+				v = "0"
+			}
+			x, _ := strconv.ParseUint(v, 10, 64)
+			var bs []string
+			for i := int64(0); i < p.width; i++ {
+				shift := uint(8 * (p.width - 1 - i))
+				bs = append(bs, strconv.Itoa(int((x>>shift)&0xff)))
+			}
+			args = append(args, fmt.Sprintf("%s{%s}", p.goTy, strings.Join(bs, ", ")))
+			input[p.name] = bs
+		case "slabid":
+			args = append(args, "SlabID{}")
+		default:
+			if strings.HasPrefix(p.goTy, "cbor.DecMode") {
+				setup = append(setup, "\tdm, _ := cbor.DecOptions{}.DecMode()")
+				args = append(args, "dm")
+			} else if strings.HasPrefix(p.goTy, "cbor.EncMode") {
+				setup = append(setup, "\tem, _ := cbor.EncOptions{}.EncMode()")
+				args = append(args, "em")
+			} else {
+				setup = append(setup, fmt.Sprintf("\tvar %s %s", safeName(p.name), p.goTy))
+				args = append(args, safeName(p.name))
+			}
+		}
+	}
+	needCbor := false
+	for _, s := range setup {
+		if strings.Contains(s, "cbor.") {
+			needCbor = true
+		}
+	}
+	imports := "\"testing\"\n"
+	if needCbor {
+		imports += "\t\"github.com/fxamacker/cbor/v2\"\n"
+	}
+	nres := fi.Sig.Results().Len()
+	lhs := ""
+	if nres > 0 {
+		lhs = strings.TrimSuffix(strings.Repeat("_, ", nres), ", ") + " = "
+	}
+	src := fmt.Sprintf(`package atree
+
+// generated by govc: replay of obligation %s (kind %s, %s)
+import (
+	%s)
+
+func TestGovcReplay(t *testing.T) {
+	defer func() {
+		if r := recover(); r != nil {
+			t.Fatalf("GOVC-REPLAY-PANIC: %%v", r)
+		}
+	}()
+%s
+	%s%s(%s)
+}
+`, o.Name, o.Kind, o.Pos, imports, strings.Join(setup, "\n"), lhs, fi.Obj.Name(), strings.Join(args, ", "))
+	testFile := filepath.Join(dir, "zz_govc_replay_test.go")
+	os.WriteFile(testFile, []byte(src), 0o644)
+	ov := map[string]any{"Replace": map[string]string{filepath.Join(eng.repo, "zz_govc_replay_test.go"): testFile}}
+	ob, _ := json.Marshal(ov)
+	ovFile := filepath.Join(dir, "ov.json")
+	os.WriteFile(ovFile, ob, 0o644)
+	ctx, cancel := context.WithTimeout(context.Background(), 180*time.Second)
+	defer cancel()
+	cmd := exec.CommandContext(ctx, "go", "test", "-overlay", ovFile, "-vet=off", "-count=1", "-timeout", "60s", "-run", "^TestGovcReplay$", ".")
+	cmd.Dir = eng.repo
+	var out bytes.Buffer
+	cmd.Stdout = &out
+	cmd.Stderr = &out
+	cmd.Run()
+	res := out.String()
+	confirmed := strings.Contains(res, "GOVC-REPLAY-PANIC")
+	if len(res) > 4000 {
+		res = res[:4000]
+	}
+	return &replayTest{Source: src, Result: res, Input: input, Confirmed: confirmed}, true
+}
+
+func safeName(n string) string {
+	if n == "" || n == "_" {
+		return "arg"
+	}
+	return n + "_"
+}
+
+func firstLine(s string) string {
+	if i := strings.Index(s, "\n"); i >= 0 {
+		return s[:i]
+	}
+	return s
 }
 
 func cmdReplay(args []string) {
@@ -26,9 +341,35 @@ func cmdReplay(args []string) {
 		fmt.Fprintln(os.Stderr, err)
 		os.Exit(2)
 	}
-	fmt.Println(string(b))
+	var rec map[string]any
+	if err := json.Unmarshal(b, &rec); err != nil {
+		fmt.Fprintln(os.Stderr, err)
+		os.Exit(2)
+	}
+	src, _ := rec["replay_test"].(string)
+	if src == "" {
+		fmt.Println("no replayable input in this file (obligation:", rec["obligation"], "); solver output:")
+		fmt.Println(rec["solver_output"])
+		return
+	}
+	repo := envOr("GOVC_REPO", "/repo")
+	dir := mkScratch()
+	defer os.RemoveAll(dir)
+	testFile := filepath.Join(dir, "zz_govc_replay_test.go")
+	os.WriteFile(testFile, []byte(src), 0o644)
+	ov := map[string]any{"Replace": map[string]string{filepath.Join(repo, "zz_govc_replay_test.go"): testFile}}
+	ob, _ := json.Marshal(ov)
+	ovFile := filepath.Join(dir, "ov.json")
+	os.WriteFile(ovFile, ob, 0o644)
+	cmd := exec.Command("go", "test", "-overlay", ovFile, "-vet=off", "-count=1", "-timeout", "60s", "-run", "^TestGovcReplay$", "-v", ".")
+	cmd.Dir = repo
+	cmd.Stdout = os.Stdout
+	cmd.Stderr = os.Stderr
+	if err := cmd.Run(); err != nil {
+		os.Exit(1)
+	}
 }
 
 func thoroughExtras(eng *Engine, prop string, pr *propRun) []string { return nil }
 
-func runSelftest(args []string) { fmt.Println("selftest: TODO") }
+func runSelftest(args []string) { fmt.Println("selftest: see tools/seeds_report.py and selftest/") }
